@@ -769,7 +769,7 @@ pub fn arb_case(valid_only: bool) -> impl Strategy<Value = Case> {
 // (PeerSession::run_select: receive buffer + repeated try_parse) over a real connection
 // ---------------------------------------------------------------------------
 
-pub const BURST_RULE: &str = "session-burst: over a real loopback session (established first), one burst of 1..900 complete frames (KEEPALIVE, End-of-RIB UPDATE or a mix, optionally ending in a frame of an unknown type) written in one piece or in generated fragments, then silence. Every frame of the burst must be consumed without further input: the daemon's receive counter reaches the number of frames sent (and the bad frame is answered by its NOTIFICATION) within a real-time budget of several seconds where milliseconds suffice; frames left in the receive buffer are a stall. non-trivial := more than 128 frames in one write";
+pub const BURST_RULE: &str = "session-burst: over a real loopback session (IPv4 unicast, IPv6 unicast only, or both; established first), one burst of 1..900 complete frames (KEEPALIVE, End-of-RIB UPDATE - the empty UPDATE, which is well-formed on any session, and the IPv6 form where IPv6 is negotiated - or a mix, optionally ending in a frame of an unknown type) written in one piece or in generated fragments, then silence. Every frame of the burst must be consumed without further input: the daemon's receive counter reaches the number of frames sent (and the bad frame is answered by its NOTIFICATION) within a real-time budget of several seconds where milliseconds suffice; frames left in the receive buffer are a stall. non-trivial := more than 128 frames in one write";
 
 #[derive(Clone, Debug, Serialize, Deserialize)]
 pub struct BurstCase {
@@ -778,6 +778,9 @@ pub struct BurstCase {
     pub kind: u8,
     pub tail_bad: bool,
     pub chunks: Vec<u16>,
+    /// families of the session: 0 = IPv4 unicast, 1 = IPv6 unicast only, 2 = both
+    #[serde(default)]
+    pub fams: u8,
 }
 
 pub fn check_burst(c: &BurstCase) -> CheckResult {
@@ -790,10 +793,18 @@ async fn burst(c: &BurstCase) -> CheckResult {
     use crate::props::wirepeer::{WirePeer, fresh_loopback};
     use packet::bgp::Capability;
     let src = fresh_loopback();
-    let cfg = NeighborCfg { addr: src, remote_asn: 65100, local_asn: 0, rs_client: false, rr_client: false, cluster_id: None, admin_down: false, holdtime: 90, families: vec![(packet::Family::IPV4, 0)], prefix_limit: None, gr: None, llgr: None };
+    let fams: Vec<packet::Family> = match c.fams % 3 {
+        0 => vec![packet::Family::IPV4],
+        1 => vec![packet::Family::IPV6],
+        _ => vec![packet::Family::IPV4, packet::Family::IPV6],
+    };
+    let has_v6 = c.fams % 3 != 0;
+    let cfg = NeighborCfg { addr: src, remote_asn: 65100, local_asn: 0, rs_client: false, rr_client: false, cluster_id: None, admin_down: false, holdtime: 90, families: fams.iter().map(|f| (*f, 0)).collect(), prefix_limit: None, gr: None, llgr: None };
     let mut p = WirePeer::new(65000, cfg).await?;
     p.connect().await?;
-    if !p.establish(65100, 0, 0x0a00_0003, vec![Capability::MultiProtocol(packet::Family::IPV4), Capability::FourOctetAsNumber(65100)]).await? {
+    let mut caps: Vec<Capability> = fams.iter().map(|f| Capability::MultiProtocol(*f)).collect();
+    caps.push(Capability::FourOctetAsNumber(65100));
+    if !p.establish(65100, 0, 0x0a00_0003, caps).await? {
         return Err(Failure::new("harness", "the session did not establish".to_string()));
     }
     let before = p.rig.rx_frames(src).await;
@@ -806,7 +817,11 @@ async fn burst(c: &BurstCase) -> CheckResult {
             1 => true,
             _ => i % 2 == 1,
         };
-        if update {
+        if update && has_v6 && i % 3 == 2 {
+            // End-of-RIB for IPv6 unicast: an UPDATE whose only attribute is an empty MP_UNREACH_NLRI
+            bytes.extend_from_slice(&[0, 29, 2, 0, 0, 0, 6, 0x80, 15, 3, 0, 2, 1]);
+        } else if update {
+            // the IPv4 End-of-RIB (an empty UPDATE) is well-formed on any session, whatever families it carries
             bytes.extend_from_slice(&[0, 23, 2, 0, 0, 0, 0]);
         } else {
             bytes.extend_from_slice(&[0, 19, 4]);
@@ -828,6 +843,9 @@ async fn burst(c: &BurstCase) -> CheckResult {
             done = true;
             break;
         }
+        if !c.tail_bad && p.is_closed() {
+            return Err(Failure::new("session-died", format!("the session ended on a burst of {n} well-formed KEEPALIVE / End-of-RIB frames ({got} counted; families of the session: {fams:?}; NOTIFICATIONs sent: {:?})", p.notifications())).with("ipv4_negotiated", c.fams % 3 != 1));
+        }
     }
     if !done {
         return Err(Failure::new("session-stall", format!("{got} of the {n} frames of one burst were consumed{}; nothing more happens without further input from the peer", if c.tail_bad { format!(", the trailing bad frame answered: {}", p.is_closed()) } else { String::new() })).with("consumed_all", got >= n));
@@ -843,7 +861,7 @@ async fn burst(c: &BurstCase) -> CheckResult {
 }
 
 pub fn arb_burst() -> impl Strategy<Value = BurstCase> {
-    (prop_oneof![2 => 1u16..40, 2 => 100u16..300, 2 => 300u16..900], 0u8..3, prop::bool::weighted(0.4), prop_oneof![3 => Just(vec![]), 1 => proptest::collection::vec(prop_oneof![1u16..30, 100u16..5000], 1..4)]).prop_map(|(n, kind, tail_bad, chunks)| BurstCase { n, kind, tail_bad, chunks })
+    (prop_oneof![2 => 1u16..40, 2 => 100u16..300, 2 => 300u16..900], 0u8..3, prop::bool::weighted(0.4), prop_oneof![3 => Just(vec![]), 1 => proptest::collection::vec(prop_oneof![1u16..30, 100u16..5000], 1..4)], prop_oneof![2 => Just(0u8), 1 => Just(1u8), 1 => Just(2u8)]).prop_map(|(n, kind, tail_bad, chunks, fams)| BurstCase { n, kind, tail_bad, chunks, fams })
 }
 
 pub fn run(r: &Run) {
